@@ -64,3 +64,46 @@ Proof.
   destruct (run2 c q (s0, s1) h) as [[a0 a1] os]. destruct (run2 c q (s0, s1') h') as [[b0 b1] os'].
   destruct A as [A _]. destruct B as [B _]. rewrite E in A. rewrite A in B. cbn [snd]. congruence.
 Qed.
+
+(* ---------- removing every transparent line at once ----------
+   A line is transparent at its place in a history when it leaves the parser state as it found it
+   (C17_no_trace says which lines are: rejected ones and unfragmented sentences).  The sub-history of the
+   other lines, run alone, ends in the same state and gives those lines the same results. *)
+Definition pstate_eqb (a b : pstate) : bool :=
+  opt_eqb (p_id a) (p_id b) && (p_fn a =? p_fn b) && list_eqb (p_data a) (p_data b).
+
+Lemma list_eqb_eq a b : list_eqb a b = true -> a = b.
+Proof.
+  revert b; induction a as [|x a IH]; intros [|y b] H; cbn [list_eqb] in H; try discriminate; [reflexivity|].
+  apply andb_prop in H. destruct H as [H1 H2]. apply N.eqb_eq in H1. subst y. f_equal. apply IH. exact H2.
+Qed.
+
+Lemma pstate_eqb_eq a b : pstate_eqb a b = true -> a = b.
+Proof.
+  unfold pstate_eqb. intros H. apply andb_prop in H. destruct H as [H H3]. apply andb_prop in H. destruct H as [H1 H2].
+  destruct a as [ia fa da], b as [ib fb db]. cbn [p_id p_fn p_data] in *.
+  apply N.eqb_eq in H2. apply list_eqb_eq in H3. subst.
+  destruct ia as [x|], ib as [y|]; cbn [opt_eqb] in H1; try discriminate; [|reflexivity].
+  apply N.eqb_eq in H1. subst. reflexivity.
+Qed.
+
+(* the lines that do change the state, and the results they got, along one run *)
+Fixpoint effective (c : cfg) (q : quirks) (st : pstate) (h : list (list N * bool)) : list (list N * bool) * list (res frag) :=
+  match h with
+  | [] => ([], [])
+  | (line, d) :: h' =>
+    let '(st1, o) := step c q st line d in
+    let '(ls, os) := effective c q st1 h' in
+    if pstate_eqb st1 st then (ls, os) else ((line, d) :: ls, o :: os)
+  end.
+
+Theorem remove_all_transparent c q h st :
+  run c q st (fst (effective c q st h)) = (fst (run c q st h), snd (effective c q st h)).
+Proof.
+  revert st; induction h as [|[line d] h IH]; intros st; [reflexivity|].
+  cbn [effective run]. destruct (step c q st line d) as [st1 o] eqn:E.
+  specialize (IH st1). destruct (effective c q st1 h) as [ls os]. destruct (run c q st1 h) as [st2 os2] eqn:R.
+  cbn [fst snd] in *. destruct (pstate_eqb st1 st) eqn:Q.
+  - apply pstate_eqb_eq in Q. subst st1. cbn [fst snd]. exact IH.
+  - cbn [fst snd run]. rewrite E, IH. reflexivity.
+Qed.
